@@ -14,11 +14,21 @@ import AnsiModel.Generated.Methods
   * `namespace C06d.L` — everything that does not mention `Gen.applyCore`/`Gen.insertSettings`: the
     primitives of `AnsiModel/Obj.lean` on natural keys (`has_nat`, `set_nat`, `get_nat`,
     `modifyAt_nat`), `Py.sliceAssign` at an empty slice (`sliceAssign_nat`), the `for` loop that
-    appends under a condition is a filter (`foldlM_filter`), two `modify` at one key compose
-    (`modify_modify`), `ansi_settings_at` inside the text (`ansiSettingsAt_nat`), glue for
+    appends under a condition is a filter (`foldlM_filter`, and `foldlM_filter_not` for the loop written
+    with `continue`), two `modify` at one key compose (`modify_modify`), `k in d` after
+    `if k not in d: d[k] = …` without any assumption on the table (`contains_ensure_self`),
+    `ansi_settings_at` inside the text (`ansiSettingsAt_nat`), `_find_setting_reference … < 0` / `>= 0`
+    through C05c (`find_lt_zero`, `find_ge_zero`), truth of a list written with `len`, glue for
     `if`/`bind` in `Except`.
-  * `namespace C06d` — the theorems over `Gen.*`: unfold, `cases top`, `simp only` with the lemmas
-    of `L`.
+  * `namespace C06d` — the theorems over `Gen.*`: `unfold`, `cases` on `N.isEmpty` and `topmost`, one
+    `simp only` with the lemmas of `L`.  The same script was run unchanged against a rewritten variant
+    of the generated function (`len(ansi_settings) == 0`, `if start in self._fmts: pass else: …`,
+    `if topmost: pass else: …`, `n = len(ansi_settings)` bound first, `if find(...) >= 0: continue`,
+    `if len(remove_and_add_settings) > 0`, no trailing rebinding of `self`) and passed.
+
+  Finding: the hypothesis `SortedKeys x.fmts` of `applyCore_is_code` is not needed (`applyCore_eq`):
+  `get?` after `ensure`/`set` at the same key follows the path `set` took, and `modify` does not change
+  which keys `get?` sees, so on *every* table the translated statements and the model agree.
 -/
 
 namespace C06d
@@ -28,12 +38,18 @@ namespace L
 
 theorem bind_ok {ε α β : Type} (a : α) (f : α → Except ε β) : (Except.ok a).bind f = f a := rfl
 
-theorem ite_ok {ε α : Type} (c : Prop) [Decidable c] (a b : α) :
-    (if c then (Except.ok a : Except ε α) else .ok b) = .ok (if c then a else b) := by
+/-- both branches of an `if` statement end normally (stated for the object only, so that the
+    conditional append in the loop body keeps its shape for `foldlM_filter`) -/
+theorem ite_ok {ε : Type} (c : Prop) [Decidable c] (a b : AStr) :
+    (if c then (Except.ok a : Except ε AStr) else .ok b) = .ok (if c then a else b) := by
   split <;> rfl
 
-/-- `if not b: A else: B` -/
-theorem ite_bnot {α : Type} (b : Bool) (a c : α) :
+/-- `if not b: A else: B` (for the object only, as `ite_ok`) -/
+theorem ite_bnot (b : Bool) (a c : AStr) :
+    (if (!b) = true then a else c) = if b = true then c else a := by
+  cases b <;> rfl
+
+theorem ite_bnot_fmts (b : Bool) (a c : Fmts) :
     (if (!b) = true then a else c) = if b = true then c else a := by
   cases b <;> rfl
 
@@ -59,6 +75,26 @@ theorem foldlM_filter {ε α : Type} (c : α → Bool) (l : List α) (acc : List
       simp only [Bool.false_eq_true, if_false, List.filter_cons, h]
       show List.foldlM _ acc l = _
       rw [ih]
+
+/-- the same loop written with `continue`: `if c: continue` before the append -/
+theorem foldlM_filter_not {ε α : Type} (c : α → Bool) (l : List α) (acc : List α) :
+    List.foldlM (m := Except ε) (fun acc a => if c a = true then .ok acc else .ok (acc ++ [a])) acc l =
+      .ok (acc ++ l.filter (fun a => !c a)) := by
+  rw [← foldlM_filter]
+  congr 1
+  funext acc a
+  cases c a <;> rfl
+
+/-! ## Truth value of a list written with `len` -/
+
+theorem length_eq_zero_dec {α : Type} (l : List α) : decide ((l.length : Int) = 0) = l.isEmpty := by
+  cases l <;> simp <;> omega
+
+theorem length_ne_zero_dec {α : Type} (l : List α) : decide ((l.length : Int) ≠ 0) = !l.isEmpty := by
+  cases l <;> simp <;> omega
+
+theorem length_pos_dec {α : Type} (l : List α) : decide ((l.length : Int) > 0) = !l.isEmpty := by
+  cases l <;> simp <;> omega
 
 /-! ## The primitives of `AnsiModel/Obj.lean` on keys that are natural numbers -/
 
@@ -90,6 +126,26 @@ theorem modifyAt_nat {f : Fmts} {k : Nat} (g : Point → Point) (h : f.contains 
   cases hg : f.get? k with
   | none => simp [hg] at h
   | some p => rfl
+
+/-- `d[k] = p; k in d` — the search of `get?` follows the path `set` took, sorted or not -/
+theorem contains_set_self (f : Fmts) (k : Nat) (p : Point) : (f.set k p).contains k = true := by
+  unfold Fmts.contains
+  induction f with
+  | nil => simp [Fmts.set, Fmts.get?]
+  | cons kp rest ih =>
+    obtain ⟨k', p'⟩ := kp
+    unfold Fmts.set
+    by_cases h1 : k' = k
+    · simp [h1, Fmts.get?]
+    · by_cases h2 : k < k'
+      · simp [h1, h2, Fmts.get?]
+      · simpa [h1, h2, Fmts.get?] using ih
+
+theorem contains_ensure_self (f : Fmts) (k : Nat) : (f.ensure k).contains k = true := by
+  unfold Fmts.ensure
+  split
+  · assumption
+  · exact contains_set_self f k {}
 
 /-- `if k not in d: d[k] = Point()` -/
 theorem ensure_eq (f : Fmts) (k : Nat) :
@@ -141,6 +197,10 @@ theorem find_lt_zero (s : Setting) (l : List Setting) :
   · have : Gen.findSettingReference s l ≥ 0 := by omega
     simp [h, this]
 
+/-- `_find_setting_reference(s, l) >= 0` says that the object `s` is in `l` (C05c) -/
+theorem find_ge_zero (s : Setting) (l : List Setting) :
+    decide (Gen.findSettingReference s l ≥ 0) = hasId l s.id := C05c.find_reference_is_code s l
+
 end L
 
 open L
@@ -163,9 +223,9 @@ theorem applyCore_empty (x : AStr) (st en : Int) (top : Bool) : Gen.applyCore x 
 
 set_option linter.unusedSimpArgs false in
 /-- The statements of `apply_formatting` after the scrubbing, as translated from the source, compute the
-    model function; in particular no `KeyError` and nothing outside the model's representation. -/
-theorem applyCore_is_code (x : AStr) (hs : SortedKeys x.fmts) (N : List Setting) (s e : Option Int)
-    (top : Bool)
+    model function whenever the guard at the top of `apply_formatting` lets them run — whether the
+    table is sorted or not (`get?` after `set`/`ensure` at the same key follows the same path). -/
+theorem applyCore_eq (x : AStr) (N : List Setting) (s e : Option Int) (top : Bool)
     (hgo : ¬ (sliceIdx x.len s 0 ≥ x.len ∨ sliceIdx x.len e x.len ≤ sliceIdx x.len s 0)) :
     Gen.applyCore x N (sliceIdx x.len s 0 : Nat) (sliceIdx x.len e x.len : Nat) top =
       .ok (x.applyFormatting N s e top) := by
@@ -175,16 +235,82 @@ theorem applyCore_is_code (x : AStr) (hs : SortedKeys x.fmts) (N : List Setting)
   generalize sliceIdx x.len e x.len = en at *
   have hlt : st < x.s.length := by unfold AStr.len at hgo; omega
   obtain ⟨xs, xf⟩ := x
-  simp only at hs hlt
+  simp only at hlt
   unfold Gen.applyCore
-  cases hN : N.isEmpty with
-  | true => simp
-  | false =>
-    cases top with
-    | true =>
-      simp (maxDischargeDepth := 8) only [insert_is_code, has_nat, set_nat, bind_ok, ite_ok, ite_bnot, ite_astr, ensure_eq, modifyAt_nat, get_nat,
-        Fmts.contains_ensure, Fmts.contains_modify, Fmts.sorted_ensure, Fmts.sorted_modify, hs, Bool.not_true, Bool.not_false, Bool.false_eq_true, if_false, if_true]
-      trace_state; sorry
-    | false => sorry
+  cases hN : N.isEmpty <;> cases top <;>
+    simp (maxDischargeDepth := 4) only [insert_is_code, has_nat, set_nat, get_nat, modifyAt_nat,
+      ansiSettingsAt_nat, find_lt_zero, find_ge_zero, foldlM_filter, foldlM_filter_not, modify_modify,
+      sliceAssign_nat, ensure_eq, bind_ok, ite_ok, ite_bnot, ite_bnot_fmts, ite_astr,
+      contains_ensure_self, Fmts.contains_modify, hlt, hN,
+      length_eq_zero_dec, length_ne_zero_dec, length_pos_dec,
+      List.nil_append, Bool.not_true, Bool.not_false, Bool.false_eq_true, if_false, if_true]
+
+/-- The statements of `apply_formatting` after the scrubbing, as translated from the source, compute the
+    model function; in particular no `KeyError` and nothing outside the model's representation.
+    (`hs` is not used: `applyCore_eq` holds for every table.) -/
+theorem applyCore_is_code (x : AStr) (_hs : SortedKeys x.fmts) (N : List Setting) (s e : Option Int)
+    (top : Bool)
+    (hgo : ¬ (sliceIdx x.len s 0 ≥ x.len ∨ sliceIdx x.len e x.len ≤ sliceIdx x.len s 0)) :
+    Gen.applyCore x N (sliceIdx x.len s 0 : Nat) (sliceIdx x.len e x.len : Nat) top =
+      .ok (x.applyFormatting N s e top) :=
+  applyCore_eq x N s e top hgo
+
+/-- under the same hypotheses the translated statements raise nothing: no `KeyError`, nothing outside
+    the model's representation, no Python exception -/
+theorem applyCore_never_outside (x : AStr) (hs : SortedKeys x.fmts) (N : List Setting) (s e : Option Int)
+    (top : Bool)
+    (hgo : ¬ (sliceIdx x.len s 0 ≥ x.len ∨ sliceIdx x.len e x.len ≤ sliceIdx x.len s 0)) (err : Exc) :
+    Gen.applyCore x N (sliceIdx x.len s 0 : Nat) (sliceIdx x.len e x.len : Nat) top ≠ .error err := by
+  rw [applyCore_is_code x hs N s e top hgo]
+  intro h; cases h
+
+/-! ## Non-vacuity: a concrete value, both values of `topmost` -/
+
+/-- "abcd" with one setting (object 0, `31`) from 0 to 4 -/
+def x0 : AStr :=
+  { s := "abcd".toList, fmts := [(0, { add := [⟨0, "31".toList⟩] }), (4, { rem := [⟨0, "31".toList⟩] })] }
+
+def N0 : List Setting := [⟨7, "1".toList⟩]
+
+/-- the hypotheses of `applyCore_is_code` hold for `x0`, start 1, end 3 -/
+example : SortedKeys x0.fmts ∧
+    ¬ (sliceIdx x0.len (some 1) 0 ≥ x0.len ∨ sliceIdx x0.len (some 3) x0.len ≤ sliceIdx x0.len (some 1) 0) := by
+  constructor
+  · simp [x0, SortedKeys]
+  · decide
+
+example : Gen.applyCore x0 N0 1 3 true = .ok (x0.applyFormatting N0 (some 1) (some 3) true) := by
+  decide +kernel
+
+example : Gen.applyCore x0 N0 1 3 false = .ok (x0.applyFormatting N0 (some 1) (some 3) false) := by
+  decide +kernel
+
+/-- the value itself: below the top the active setting is stopped and restarted behind the new one -/
+example : Gen.applyCore x0 N0 1 3 false = .ok
+    { s := "abcd".toList,
+      fmts := [(0, { add := [⟨0, "31".toList⟩] }),
+               (1, { add := [⟨7, "1".toList⟩, ⟨0, "31".toList⟩], rem := [⟨0, "31".toList⟩] }),
+               (3, { rem := [⟨7, "1".toList⟩] }),
+               (4, { rem := [⟨0, "31".toList⟩] })] } := by
+  decide +kernel
+
+example : Gen.applyCore x0 N0 1 3 true = .ok
+    { s := "abcd".toList,
+      fmts := [(0, { add := [⟨0, "31".toList⟩] }),
+               (1, { add := [⟨7, "1".toList⟩] }),
+               (3, { rem := [⟨7, "1".toList⟩] }),
+               (4, { rem := [⟨0, "31".toList⟩] })] } := by
+  decide +kernel
+
+/-- negative slice bounds, end at the very end (key 4 exists already) -/
+example : Gen.applyCore x0 N0 (sliceIdx x0.len (some (-3)) 0 : Nat) (sliceIdx x0.len none x0.len : Nat) false =
+    .ok (x0.applyFormatting N0 (some (-3)) none false) := by
+  decide +kernel
 
 end C06d
+
+#print axioms C06d.insert_is_code
+#print axioms C06d.applyCore_eq
+#print axioms C06d.applyCore_is_code
+#print axioms C06d.applyCore_never_outside
+#print axioms C06d.applyCore_empty
